@@ -538,7 +538,7 @@ static void gen_expiry(struct scen *sc, struct rng *r, long c)
 	time_t dur = dsel < 5 ? (time_t)E + DUR[dsel] : dsel == 5 ? (time_t)E + R : (time_t)E * 3;
 
 	sc->cfg.outage_dur_class = dsel;
-	sc->cfg.outage_mode = (int)((c / 7) % 8);
+	sc->cfg.outage_mode = (int)((c / 7) % 9);
 	sc->cfg.outage_from = 1 + rndn(r, 50);
 	if (c % 6 == 2)
 		sc->cfg.outage_from = 0; /* down from the very start: the client has no session yet */
